@@ -35,6 +35,7 @@ type c10Spec struct {
 	Zero   bool      `json:"zero,omitempty"`   // global fertilisation factor 0 % (unfertilised scenario)
 	Start  string    `json:"start,omitempty"`  // first simulated day ("" = 10 April 2001)
 	Ext    int       `json:"ext,omitempty"`    // the annual output date lies Ext days after the end date: the run (the simulated period) is extended up to it
+	After  bool      `json:"after,omitempty"`  // a crop is sown on day +1 and harvested on day +5 and is the LAST entry of the rotation file: the events lie behind the last harvest
 	Spell  int       `json:"spell,omitempty"`  // how the schedule files are written: 0 plain; 1 records indented by two blanks; 2 by a tab; 3 fields separated by tabs; 4 CRLF line ends
 }
 
@@ -135,6 +136,35 @@ func c10Specs(tier string, seed int) []c10Spec {
 			ms := c10Multisets([]int{7, 8, 9, 10, 11, 12}, 3, per)
 			sp := c10Spec{What: what, Window: "start", Fmt: "DateDElong", Factor: 100, Start: st}
 			for j0, m := range ms {
+				var evs []c10Ev
+				for j, off := range m {
+					e := c10Ev{Off: off}
+					switch what {
+					case "fert":
+						e.Kind, e.Amt = c10Ferts[(j0+j)%len(c10Ferts)], float64(20+10*((j0+j)%5))
+					case "till":
+						e.Amt, e.Kind = float64([]int{10, 20, 30}[(j0+j)%3]), fmt.Sprint((j0+j)%2)
+					case "irr":
+						e.Amt, e.Kind = float64(5+5*((j0+j)%4)), fmt.Sprint(10*((j0+j)%3))
+					}
+					evs = append(evs, e)
+				}
+				sp.Scheds = append(sp.Scheds, evs)
+			}
+			out = append(out, sp)
+		}
+	}
+	// events behind the last harvest of the rotation file (the file ends before the run does): all event lists of <= 3
+	// events on the days +8 .. +15
+	for _, what := range []string{"fert", "till", "irr"} {
+		per := 2
+		if what == "irr" {
+			per = 1
+		}
+		ms := c10Multisets([]int{8, 9, 10, 11, 12, 13, 14, 15}, 3, per)
+		for i := 0; i < len(ms); i += 30 {
+			sp := c10Spec{What: what, Window: "start", Fmt: fmts[(i/30)%4], Factor: 100, After: true}
+			for j0, m := range ms[i:min(i+30, len(ms))] {
 				var evs []c10Ev
 				for j, off := range m {
 					e := c10Ev{Off: off}
@@ -380,6 +410,9 @@ func c10RunSchedule(c *mc.Ctx, sp c10Spec, what string, fert, till, irr []c10Ev,
 	p.Config["AnnualOutputDate"] = "0101"
 	if sp.Ext > 0 {
 		p.Config["AnnualOutputDate"] = proj.DateStr(sp.Fmt, proj.D(isoAdd(c10Start, c10Len-1+sp.Ext)))[:4]
+	}
+	if sp.After && rot == nil {
+		p.Rotation = append(p.Rotation[:1], proj.CropEntry{Crop: "SW", Sow: isoAdd(c10Start, 1), Harvest: isoAdd(c10Start, 5), Rex: 50})
 	}
 	if rot != nil {
 		p.Rotation = append(p.Rotation[:1], rot...)
